@@ -181,3 +181,32 @@ func dfsSubtree(c *Ctx, cfg DFSConfig, root dfsTask) {
 		stack = append(stack, children(r, t, cfg.Bound)...)
 	}
 }
+
+// EnumerateFree runs body under every combination of its zero-cost choices (rand.Intn
+// values, simultaneously-ready select cases) with the default schedule (no deviation).
+// In-process, no sharding; returns the number of executions.
+func EnumerateFree(c *Ctx, name string, body func(), check func(r *vsched.Result, choices []int)) int {
+	stack := []dfsTask{{}}
+	n := 0
+	for len(stack) > 0 {
+		t := stack[len(stack)-1]
+		stack = stack[:len(stack)-1]
+		r, div := RunPrefix(t.prefix, t.sigs, false, body)
+		n++
+		if div != "" {
+			c.Fatal("%s: %s", name, div)
+			return n
+		}
+		if r.Fatal != "" {
+			c.Fatal("%s: %s", name, r.Fatal)
+			return n
+		}
+		check(r, picks(r))
+		stack = append(stack, children(r, t, 0)...)
+		if n > 5000 {
+			c.NotExhaustive("free-choice cap reached in " + name)
+			return n
+		}
+	}
+	return n
+}
